@@ -105,6 +105,7 @@ PROGRAMS = {
     "handlers": '10 ON ERR GOTO 100\n20 ON BRK GOTO 110\n30 A=1/B\n100 PRINT ERNO\n110 END\n',
     "circle-default": '10 HCIRCLE(X,Y),R,,INT(H)/10\n20 HCIRCLE(159,95),20\n30 HCIRCLE(1,2),3,,0.5,0.1,0.2\n',
     "plain": '10 A=1\n20 B=A+2\n',
+    "numeric-data": '10 READ A,B,C\n20 DATA 1,3,255\n30 PRINT A+B+C\n',
     "many-vars": '10 A=1:B=2:C=3:D=4:E=5:F$="X":G$="Y":H$="Z"\n20 PRINT A;B;C;D;E;F$;G$;H$\n30 IF JOYSTK(0)>BUTTON(1) THEN PRINT INKEY$\n',
     "same-base-arrays": '10 N$(1)="X":N(1)=2:Q$(2)="Y":Q(2)=3\n20 PRINT N$(1);N(1);Q$(2);Q(2):V$="A":V=1:V(1)=2:V$(1)="B"\n',
     "ifs": '10 IF A=1 THEN 100 ELSE IF A=2 THEN 200 ELSE 300\n20 ON A GOSUB 100,200,300\n100 RETURN\n200 RETURN\n300 RETURN\n',
